@@ -11,6 +11,7 @@ import (
 	"math/rand/v2"
 	"os"
 	"path/filepath"
+	"regexp"
 	"sort"
 	"strconv"
 	"strings"
@@ -176,7 +177,61 @@ func symbolPatterns(rng *rand.Rand, pkgs []*packages.Package, n int) []monitors.
 		}
 	}
 	sort.Slice(uses, func(i, j int) bool { return uses[i].name+uses[i].builtin < uses[j].name+uses[j].builtin })
+	// chained calls x.M(a).N(b): inner and outer call share their start position
+	type chain struct{ inner, outer string }
+	var chains []chain
+	seenChain := map[chain]bool{}
+	for _, p := range pkgs {
+		for _, f := range p.Syntax {
+			ast.Inspect(f, func(nd ast.Node) bool {
+				outer, ok := nd.(*ast.CallExpr)
+				if !ok {
+					return true
+				}
+				sel, ok := ast.Unparen(outer.Fun).(*ast.SelectorExpr)
+				if !ok {
+					return true
+				}
+				inner, ok := ast.Unparen(sel.X).(*ast.CallExpr)
+				if !ok {
+					return true
+				}
+				var innerID *ast.Ident
+				switch fun := ast.Unparen(inner.Fun).(type) {
+				case *ast.Ident:
+					innerID = fun
+				case *ast.SelectorExpr:
+					innerID = fun.Sel
+				}
+				if innerID == nil {
+					return true
+				}
+				of, ok1 := p.TypesInfo.ObjectOf(sel.Sel).(*types.Func)
+				inf, ok2 := p.TypesInfo.ObjectOf(innerID).(*types.Func)
+				if !ok1 || !ok2 || of.Pkg() == nil || inf.Pkg() == nil || of.Pkg() == p.Types || inf.Pkg() == p.Types {
+					return true
+				}
+				c := chain{inf.FullName(), of.FullName()}
+				if okStr(c.inner) && okStr(c.outer) && !seenChain[c] {
+					seenChain[c] = true
+					chains = append(chains, c)
+				}
+				return true
+			})
+		}
+	}
+	sort.Slice(chains, func(i, j int) bool { return chains[i].inner+chains[i].outer < chains[j].inner+chains[j].outer })
 	var out []monitors.PatternSpec
+	for i, c := range chains {
+		if i >= n/3 {
+			break
+		}
+		if c.inner == c.outer {
+			out = append(out, monitors.PatternSpec{ID: fmt.Sprintf("chain:%d", i), Text: fmt.Sprintf(`(CallExpr (Symbol %q) _)`, c.inner)})
+		} else {
+			out = append(out, monitors.PatternSpec{ID: fmt.Sprintf("chain:%d", i), Text: fmt.Sprintf(`(CallExpr (Symbol (Or %q %q)) _)`, c.inner, c.outer)})
+		}
+	}
 	if len(uses) == 0 {
 		return nil
 	}
@@ -237,6 +292,8 @@ import (
 	. "strings"
 	str "strings"
 	"sync"
+	"text/template"
+	"time"
 )
 
 type Buf = bytes.Buffer
@@ -276,6 +333,13 @@ func F(w *W, pw PW, xs []int) int {
 	defer fmt.Println("deferred")
 	go fmt.Println("go")
 	_ = []any{fmt.Sprint(1), str.ToUpper("x"), len(xs), cap(xs), append(xs, 1)}
+	// chained calls: the outer and the inner call start at the same position
+	t0 := time.Now()
+	_ = t0.Add(time.Second).Add(2 * time.Second).Add(3)
+	tpl := template.New("x").Funcs(nil).Option("missingkey=zero")
+	_ = tpl
+	_ = str.NewReplacer("a", "b").Replace(str.NewReplacer("c", "d").Replace("x"))
+	_ = bytes.NewBufferString("x").String()
 	_ = Buf{}
 	var _ bytes.Buffer
 	return n + b.Len() + w.Len() + len(Repeat("x", 2))
@@ -305,7 +369,14 @@ var callformPatterns = []string{
 	`(GoStmt (CallExpr (Symbol "fmt.Println") _))`,
 	`(CallExpr (IndexExpr (Symbol "slices.Index") _) _)`,
 	`(IndexExpr (Symbol "slices.Index") _)`,
+	`(CallExpr (Symbol "(time.Time).Add") _)`,
+	`(CallExpr (Symbol "(time.Time).Add") [arg])`,
+	`(CallExpr (Symbol (Or "text/template.New" "(*text/template.Template).Funcs" "(*text/template.Template).Option")) _)`,
+	`(CallExpr (Symbol (Or "strings.NewReplacer" "(*strings.Replacer).Replace")) _)`,
+	`(CallExpr (Or (Symbol "bytes.NewBufferString") (Symbol "(*bytes.Buffer).String")) _)`,
 }
+
+var instantiatedMethodSymbol = regexp.MustCompile(`"\(\*?[^"()]*\[[^"]*\]\)\.[^"]*"`)
 
 type patStats struct {
 	Pairs, Skipped, PairsWithMatch, Matches, BrutePanics int
@@ -470,7 +541,14 @@ func Run(r *vf.Run) {
 				if mi, _ := m["missing"].(float64); mi == 0 {
 					kind = "extra"
 				}
-				r.Violation(fmt.Sprintf("prefilter-%s-matches:%s:root=%s:%s", kind, filter, root, strings.SplitN(id, ":", 2)[0]),
+				key := fmt.Sprintf("prefilter-%s-matches:%s:root=%s:%s", kind, filter, root, strings.SplitN(id, ":", 2)[0])
+				if kind == "missing" && instantiatedMethodSymbol.MatchString(text[id]) {
+					// a Symbol that names a method of an *instantiated* generic type,
+					// e.g. "(*sync/atomic.Pointer[string]).Store": the matcher compares
+					// full names and matches, the symbol index cannot resolve the name
+					key = "prefilter-missing-matches:symbol-names-method-of-instantiated-generic-type"
+				}
+				r.Violation(key,
 					fmt.Sprintf("pattern %s: code.Matches and matching every node disagree in %s (missing %v, extra %v; first missing at %v)", id, filepath.Base(filepath.Dir(p.Location.File)), m["missing"], m["extra"], m["first_missing_at"]), m)
 			case strings.HasPrefix(p.Message, "patmon panic "):
 				r.Violation("matches-panicked", p.Message, map[string]any{"message": p.Message, "file": p.Location.File})
@@ -480,6 +558,13 @@ func Run(r *vf.Run) {
 	r.Set("patterns_in_tree", len(intree))
 	r.Set("patterns_callforms", len(cfPats))
 	r.Set("patterns_symbol_derived", len(valid))
+	nChain := 0
+	for _, v := range valid {
+		if strings.HasPrefix(v.ID, "chain:") {
+			nChain++
+		}
+	}
+	r.Set("patterns_from_chained_calls", nChain)
 	r.Set("patterns_generated", len(generated))
 	r.Set("packages", pkgs)
 	r.Set("pairs", tot.Pairs)
